@@ -109,8 +109,13 @@ class NonDominatedPriority(MOPriority):
         self.max_num_samples = max_num_samples
 
     def priority_unsafe(self, objectives: np.array) -> np.array:
-        return np.array(
-            nondominated_sort(
-                X=objectives, dim=self.dim, max_items=self.max_num_samples
-            )
+        # ``nondominated_sort`` returns the indices of the elements in sorted
+        # order. The priority of an element is its position in this order
+        # (elements cut off by ``max_num_samples`` come last)
+        order = nondominated_sort(
+            X=objectives, dim=self.dim, max_items=self.max_num_samples
         )
+        num_samples = objectives.shape[0]
+        priorities = np.full(num_samples, num_samples)
+        priorities[np.array(order, dtype=int)] = np.arange(len(order))
+        return priorities
